@@ -581,7 +581,19 @@ func c18Run(j *orch.Job, r *orch.Result) error {
 			}
 			return fmt.Errorf("sync under API load: %v; last daemon error: %s", err, harness.LastDaemonError())
 		}
-		time.Sleep(30 * time.Millisecond) // let in-flight requests finish inside the segment
+		// the database shows segEnd as committed; the driver hook that records that COMMIT (with its times) runs right
+		// after the statement returns - wait for the record itself, not for a span of time (on a loaded machine the
+		// recording goroutine can be preempted for long: a thorough run once judged a segment without its last commit)
+		for w := 0; w < 120000; w++ {
+			cmu.Lock()
+			have := len(commits) > 0 && commits[len(commits)-1].h >= segEnd
+			cmu.Unlock()
+			if have || segEnd == segStart {
+				break
+			}
+			time.Sleep(time.Millisecond)
+		}
+		time.Sleep(30 * time.Millisecond) // let in-flight requests finish inside the segment (late ones go to the next)
 		rmu.Lock()
 		segReads := reads
 		reads = nil
@@ -677,6 +689,18 @@ func c18Run(j *orch.Job, r *orch.Result) error {
 					ops = append(ops, porcupine.Operation{ClientId: rd.Client + 1, Input: regInput{Set: set, Desc: desc}, Call: rd.Call, Return: rd.Return})
 				}
 			}
+		}
+		// the commit record must be complete for the history to mean anything
+		complete := len(segCommits) == int(segEnd-segStart)
+		for i, cm := range segCommits {
+			if cm.h != segStart+1+uint32(i) {
+				complete = false
+			}
+		}
+		if !complete {
+			r.Inconclusive = append(r.Inconclusive, fmt.Sprintf("segment %d..%d: the record of commits is not contiguous (%d records): history not judged", segStart, segEnd, len(segCommits)))
+			segStart = segEnd
+			continue
 		}
 		// cross-response consistency (a later request must not see an older state than an earlier, finished one): porcupine on a sample
 		res, _ := porcupine.CheckOperationsVerbose(c18Model(segStart), ops, 90*time.Second)
